@@ -26,6 +26,10 @@ def zip (f : Rat → Rat → Rat) (a b : Mat) : Option Mat :=
 /-- `np.sum(M, axis=-1)` -/
 def sumRows (m : Mat) : List Rat := m.rows.map fun r => r.foldr (· + ·) 0
 
+/-- `M[:, j]`: column `j` as a vector (IndexError when the array has no such column: `none`) -/
+def col (m : Mat) (j : Nat) : Option (List Rat) :=
+  if j < m.ncols then some (m.rows.map fun r => r.getD j 0) else none
+
 /-- `np.prod(M, axis=-1)` -/
 def prodRows (m : Mat) : List Rat := m.rows.map fun r => r.foldr (· * ·) 1
 
